@@ -7,9 +7,9 @@ pub const CONTEXTS: [&str; 19] = [
     "when", "unless", "apply", "apply-apply", "apply-renamed", "apply-prefixed",
 ];
 pub const SHAPES: [&str; 6] = ["self", "mutual-2", "mutual-3", "through-parameter", "variadic", "closure-returned"];
-pub const SHAPES_ALL: [&str; 13] = [
+pub const SHAPES_ALL: [&str; 16] = [
     "self", "mutual-2", "mutual-3", "through-parameter", "variadic", "closure-returned", "internal-definition", "fresh-closure-per-iteration", "apply-as-parameter",
-    "body-with-internal-variable", "body-with-internal-procedure", "through-forwarder", "forwarder-cycle",
+    "body-with-internal-variable", "body-with-internal-procedure", "through-forwarder", "forwarder-cycle", "operator-is-a-conditional", "operator-is-and-or", "operator-with-an-effect",
 ];
 
 /// put `x` (an expression in tail position) into the tail position of the given context
@@ -110,6 +110,29 @@ pub fn program(shape: &str, ctxs: &[&str], n: u32) -> Vec<String> {
             ));
             forms.push(format!("(loop {} 1)", n));
         }
+        "operator-is-a-conditional" => {
+            // the operator of the tail call is itself an if / cond expression choosing between two looping procedures
+            forms.push(format!(
+                "(define (loop-a i acc) (probe i) (if (= i 0) acc {}))",
+                w("((if (= 0 (floor-remainder i 2)) loop-b loop-a) (- i 1) (step acc i))")
+            ));
+            forms.push(format!(
+                "(define (loop-b i acc) (probe i) (if (= i 0) acc {}))",
+                w("((cond ((= 0 (floor-remainder i 3)) loop-a) (else loop-b)) (- i 1) (step acc i))")
+            ));
+            forms.push(format!("(loop-a {} 1)", n));
+        }
+        "operator-is-and-or" => {
+            forms.push(format!("(define (loop i acc) (probe i) (if (= i 0) acc {}))", w("((or #f (and #t loop)) (- i 1) (step acc i))")));
+            forms.push(format!("(loop {} 1)", n));
+        }
+        "operator-with-an-effect" => {
+            // the operator expression counts how often it is evaluated: once per iteration
+            forms.push("(define calls 0)".to_string());
+            forms.push("(define (next-step) (set! calls (+ calls 1)) loop)".to_string());
+            forms.push(format!("(define (loop i acc) (probe i) (if (= i 0) (+ (* acc 10000) (floor-remainder calls 10000)) {}))", w("((next-step) (- i 1) (step acc i))")));
+            forms.push(format!("(loop {} 1)", n));
+        }
         "through-forwarder" => {
             // the tail call goes through a procedure whose whole body is (apply f args)
             forms.push("(define (forward f . args) (apply f args))".to_string());
@@ -181,7 +204,11 @@ pub fn judge(shape: &str, ctxs: &[&str], n: u32) -> Report {
     let m = measure(forms, n);
     let ctx_name = ctxs.join("+");
     let tag = if ctxs.iter().any(|c| c.starts_with("apply")) { "tail-context:apply".to_string() } else { format!("{}:{}", shape, ctx_name) };
-    let expected = if shape == "fresh-closure-per-iteration" { closed_form(n) * 10000 + n as i32 } else { closed_form(n) };
+    let expected = match shape {
+        "fresh-closure-per-iteration" => closed_form(n) * 10000 + n as i32,
+        "operator-with-an-effect" => closed_form(n) * 10000 + (n % 10000) as i32,
+        _ => closed_form(n),
+    };
     match &m.outcome {
         Outcome::Value(SVal::Num(crate::sut::SNum::Int(v))) if *v == expected => {}
         Outcome::Panic { site, msg } => {
@@ -227,7 +254,8 @@ pub fn run(ctx: &Ctx) {
         "loop programs = loop shape (self, 2-/3-way mutual, through a procedure parameter, variadic with re-spread rest \
          argument, closure-returned, internal definition, a fresh closure per iteration, apply arriving as a parameter and handed to itself, a looping body with internal \
          variable definitions / with an internal procedure definition, the tail call forwarded by (define (forward f . args) (apply f args)), a three-procedure cycle through \
-         one-call bodies) x composition of tail contexts (19: body-last, if-then, if-else, \
+         one-call bodies, a tail call whose operator is an if / cond / and / or expression, a tail call whose operator \
+         expression counts its own evaluations) x composition of tail contexts (19: body-last, if-then, if-else, \
          begin, let, let*, cond clause/else/=>, case clause/else, and, or, when, unless, apply, apply handed to apply, \
          apply imported under another name / with a prefix) x N; the loop calls (probe i) \
          once per iteration, which records the real machine stack address and the thread's live heap bytes. Quick: every \
